@@ -110,6 +110,7 @@ type pathState struct {
 	nAsserts int
 	noIfConv bool
 	stubTaxHash bool
+	taxHashBits int
 	decided  map[int]bool // branch conditions already decided on this path (term id -> outcome)
 }
 
